@@ -165,13 +165,15 @@ Fixpoint find_parent (prev : list (nat * linfo)) (ind : nat) : option nat :=
   | [] => None
   | (j, (ij, cfg, _)) :: r => if (cfg && (ij <? ind))%bool then Some j else find_parent r ind
   end.
+(* the line directly above is more indented than `ind` *)
+Definition head_deeper (prev : list (nat * linfo)) (ind : nat) : bool :=
+  match prev with (_, (ip, _, _)) :: _ => ind <? ip | [] => false end.
 Definition parent_of (prev : list (nat * linfo)) (i : nat) (x : linfo) : nat :=
   let '(ind, _, cmt) := x in
   if ind =? 0 then i
   else match find_parent prev ind with
        | None => i
-       | Some j =>
-           if (cmt && match prev with (_, (ip, _, _)) :: _ => ind <? ip | [] => false end)%bool then i else j
+       | Some j => if (cmt && head_deeper prev ind)%bool then i else j
        end.
 Fixpoint parents_go (prev : list (nat * linfo)) (i : nat) (ls : list linfo) : list nat :=
   match ls with
@@ -184,6 +186,16 @@ Definition children_model (ps : list nat) : list (list nat) :=
   map (fun p => filter (fun i => (nth i ps i =? p) && negb (i =? p))%bool (seq 0 (length ps))) (seq 0 (length ps)).
 
 (* ====================================================================================== the spec side *)
+(* a statement text: non-empty, only printable non-brace characters and spaces, does not start with a
+   space or a quote, does not end with a space or a semicolon *)
+Definition wf_text (t : str) : bool :=
+  match t with
+  | [] => false
+  | c :: _ =>
+      (forallb is_content t && negb (N.eqb c SP) && negb (N.eqb c DQ) && negb (N.eqb c SQ)
+       && match rev t with l :: _ => negb (N.eqb l SP) && negb (N.eqb l SEMI) | [] => false end)%bool
+  end.
+
 (* A statement tree and its flattening (what the property promises) *)
 Inductive tree := Node (text : str) (kids : forest)
 with forest := FNil | FCons (t : tree) (f : forest).
@@ -217,6 +229,16 @@ with forest_parents (p : option nat) (after_deeper : bool) (i : nat) (f : forest
       tree_parents p after_deeper i t
       ++ forest_parents p (match t with Node _ FNil => false | _ => true end) (i + size_tree t) r
   end.
+
+(* statement trees the parent theorem speaks about: every text is a statement text and a statement
+   that opens a block is not a comment *)
+Fixpoint wf_tree (t : tree) : bool :=
+  match t with
+  | Node text kids =>
+      (wf_text text && match kids with FNil => true | _ => negb (is_comment_text text) end && wf_forest kids)%bool
+  end
+with wf_forest (f : forest) : bool :=
+  match f with FNil => true | FCons t r => (wf_tree t && wf_forest r)%bool end.
 
 (* A layout = the tree decorated with all the white space, semicolons and braces of one rendering.
    LLeaf pre text trail semi trail2 term :  pre text trail [;] trail2 term
@@ -266,15 +288,6 @@ Definition is_lb (c : char) : bool := (N.eqb c NL || N.eqb c CRc)%bool.
 Definition is_ws3 (c : char) : bool := (N.eqb c SP || N.eqb c NL || N.eqb c CRc)%bool.   (* layout white space (no tabs) *)
 Definition all_sp (s : str) : bool := forallb (N.eqb SP) s.
 Definition all_ws (s : str) : bool := forallb is_ws3 s.
-(* a statement text: non-empty, only printable non-brace characters and spaces, does not start with a
-   space or a quote, does not end with a space or a semicolon *)
-Definition wf_text (t : str) : bool :=
-  match t with
-  | [] => false
-  | c :: _ =>
-      (forallb is_content t && negb (N.eqb c SP) && negb (N.eqb c DQ) && negb (N.eqb c SQ)
-       && match rev t with l :: _ => negb (N.eqb l SP) && negb (N.eqb l SEMI) | [] => false end)%bool
-  end.
 (* the white space that ends a leaf: starts with a line break *)
 Definition wf_term (s : str) : bool := match s with c :: r => (is_lb c && all_ws r)%bool | [] => false end.
 
@@ -291,4 +304,23 @@ with wf_lforest (closer_follows : bool) (f : lforest) : bool :=
   match f with
   | LNil => true
   | LCons t r => (wf_ltree (closer_follows && match r with LNil => true | _ => false end) t && wf_lforest closer_follows r)%bool
+  end.
+
+(* ---- layouts that may also use TAB characters as white space (pyparsing expands them first) *)
+Definition is_ws4 (c : char) : bool := (is_ws3 c || N.eqb c TAB)%bool.
+Definition all_ws4 (s : str) : bool := forallb is_ws4 s.
+Definition all_spt (s : str) : bool := forallb (fun c => (N.eqb c SP || N.eqb c TAB)%bool) s.
+Definition wf_termT (s : str) : bool := match s with c :: r => (is_lb c && all_ws4 r)%bool | [] => false end.
+Fixpoint wfT_ltree (last_ok : bool) (t : ltree) : bool :=
+  match t with
+  | LLeaf pre text trail semi trail2 term =>
+      (all_ws4 pre && wf_text text && all_spt trail && all_spt trail2
+       && (wf_termT term || (last_ok && match term with [] => true | _ => false end)))%bool
+  | LBlock pre text gap kids pre_close closed =>
+      (all_ws4 pre && wf_text text && all_ws4 gap && all_ws4 pre_close && wfT_lforest closed kids)%bool
+  end
+with wfT_lforest (closer_follows : bool) (f : lforest) : bool :=
+  match f with
+  | LNil => true
+  | LCons t r => (wfT_ltree (closer_follows && match r with LNil => true | _ => false end) t && wfT_lforest closer_follows r)%bool
   end.
